@@ -53,6 +53,8 @@ def shards(tier):
             out.append({"part": "single", "kind": kind, "tier": tier, "n": n, "first": None})
     # strings that differ only in a trailing NUL (fixed-width NumPy strings cannot tell them apart)
     out.append({"part": "single", "kind": "str", "tier": tier, "n": 3, "first": None, "alpha": [None, "a", "a\x00", "b"]})
+    # object keys of mixed type that are equal in Python: 1 == 1.0 == True is ONE key; 2 is another
+    out.append({"part": "single", "kind": "obj", "tier": tier, "n": 3, "first": None, "alpha": [None, 1, 1.0, True, 2]})
     # frames WITHOUT any non-numeric column (matrix-style shortcuts apply only to those), holding integers float64 cannot represent
     for kind in ("f8", "i8"):
         out.append({"part": "single", "kind": kind, "tier": tier, "n": 3, "first": None, "numeric": True, "alpha": V.alphabet(kind, "key")})
@@ -69,7 +71,8 @@ def shards(tier):
         na = len(V.alphabet("i8", "key"))
         for j in range(na + na * na):  # one shard per pattern: these frames are expensive to read back cell by cell
             out.append({"part": "long", "kind": "i8", "length": 65537, "maxperiod": 2, "only": j})
-    return out
+    from mc import harness
+    return harness.with_array_forms(out, tier, lambda sh: sh["part"] == "single" and sh.get("first") is None and sh["kind"] in ("f8", "str", "i8", "D", "b1"))
 
 
 def payload_cols(n):
